@@ -8,7 +8,7 @@
    `poolacct_src_<pool>` (does the pool listen to / count a one-way stream) and `poolacct_src_destroy_oneway` (a one-way client
    stream is destroyed once written) are READ FROM THE SOURCE on every run. *)
 From Coq Require Import List ZArith Bool.
-From MV Require Import Lib.Interleave Model.Pool Model.PoolAcct Model.PoolH2 Model.PoolH2Race Gen.PoolSrc Proofs.Pool Proofs.PoolAcct Proofs.PoolH2 Proofs.PoolH2Race Model.PoolAdmit Proofs.PoolAdmit Model.PoolInit Proofs.PoolInit.
+From MV Require Import Lib.Interleave Model.Pool Model.PoolAcct Model.PoolH2 Model.PoolH2Race Gen.PoolSrc Proofs.Pool Proofs.PoolAcct Proofs.PoolH2 Proofs.PoolH2Race Model.PoolAdmit Proofs.PoolAdmit Model.PoolAdmitN Proofs.PoolAdmitNRefute Model.PoolInit Proofs.PoolInit.
 Import ListNotations.
 Open Scope Z_scope.
 
@@ -164,6 +164,17 @@ Theorem c10_pool_requests_threshold_serial : forall a b c, (a < 3)%nat -> (b < 3
   entry_good (adrun (serial [a; b; c] 2) req_cfg) = true.
 Proof. exact req_serial_safe. Qed.
 Print Assumptions c10_pool_requests_threshold_serial.
+
+(* the overshoot is UNBOUNDED: for every number n of concurrent callers the schedule "everyone tests, then everyone counts"
+   admits all n against a limit of 1 (Model/PoolAdmitN.v: the same micro-steps with limit and callers as parameters;
+   n = 3 is the configuration above) *)
+Theorem c10_pool_requests_overshoot_unbounded : forall n,
+  ad_entered (snd (adrunN 1 (all_test_then_all_count n) (req_cfgN n))) = Z.of_nat n.
+Proof. exact req_overshoot_unbounded. Qed.
+Print Assumptions c10_pool_requests_overshoot_unbounded.
+
+Theorem c10_pool_requests_overshoot_instance : ad_entered (snd (adrun (all_test_then_all_count 3) req_cfg)) = 3%Z.
+Proof. exact req_overshoot_unbounded_instance. Qed.
 
 (* ==== "never negative", inside a connect path ==========================================================================
    Every pool increments upstream_connection_active in newActiveClient AFTER Connect() returned, while the connection's read
